@@ -73,7 +73,7 @@ def _conc(pid, quick, thorough, race=False):
         d.update(flavour="race", race_is_violation=True, name="cacheconc-race")
     return d
 
-STAGES["C01"] = [_conc("C01", 400, 2000)]
+STAGES["C01"] = [_conc("C01", 1200, 4000)]
 STAGES["C02"] = [_conc("C02", 300, 1500), _sm("C02", 2000, 15000)]
 STAGES["C04"] = [_conc("C04", 300, 1500), _sm("C04", 2000, 15000)]
 STAGES["C08"] = [_conc("C08", 150, 600, race=True)]
